@@ -7,6 +7,7 @@ import ast
 from engine.cfg import CFG, normalise_compare, atoms
 from engine.dataflow import ReachingDefs
 from engine.model import src, stmt_key, dotted, walk_no_nested
+from engine import pat
 from engine.util import own_nodes, calls_with_nodes, where
 
 RULES = {
@@ -21,7 +22,10 @@ WRITER_FUNCS = ["dns.zone.Zone.to_styled_file", "dns.zone.Zone._write_line", "dn
 
 def run(model, rep, tier):
     # ---------------------------------------------------------------- R-09.1
-    rs = model.func("dns.rdataset.Rdataset.to_styled_text")
+    # locals are canonicalised by role (engine.pat.canon): the fragments below name roles, the code may spell them differently
+    rs = pat.canon_func(model.func("dns.rdataset.Rdataset.to_styled_text"), [
+        "__s = io.StringIO()", "__ntext = justify(__ntext, style.name_just)", "__rdclass = style.override_rdclass", "__rdclass_text = justify(__rdclass_text, style.rdclass_just)",
+        "__rdtype_text = justify(__rdtype_text, style.rdtype_just)", "__ttl = justify(__ttl, style.ttl_just)", "for __rd in self:\n    __extra = ''\n    ...", "__rdata_text = __rd.to_styled_text(style)"])
     gcalls = [c for c in ast.walk(rs.node) if isinstance(c, ast.Call) and isinstance(c.func, ast.Attribute) and c.func.attr == "to_generic"]
     rep.floor("R-09.1-generic-sites", len(gcalls), 1)
     for c in gcalls:
@@ -50,7 +54,7 @@ def run(model, rep, tier):
                         knobs.add(a.attr)
     rep.meta["style_knobs_seen"] = sorted(knobs)
     rep.floor("R-09.1-knobs", len(knobs), 10)
-    zs = model.func("dns.zone.Zone.to_styled_file")
+    zs = pat.canon_func(model.func("dns.zone.Zone.to_styled_file"), ["__origin_style = style.replace(origin=None)\n__l = '$ORIGIN ' + self.origin.to_styled_text(__origin_style)", "__names = self.keys()", "for __n in __names:"])
     t = " ".join(src(zs.node).split())
     rep.check("if style.sorted: names = list(self.keys()) names.sort() else: names = self.keys()" in t and "for n in names: l = self[n].to_styled_text(style, n)" in t, "R-09.1", zs.qualname, where(zs, zs.node),
               "every node is written exactly once, sorted or in map order", "node iteration in the zone writer changed", stmt="all-nodes")
@@ -62,7 +66,7 @@ def run(model, rep, tier):
     okk = len(zt) == 1 and atoms(normalise_compare(zt[0].test)) == [("style.default_ttl", "is not", "None")] and "style.default_ttl is not None and self.ttl == style.default_ttl" in rt_src
     rep.check(okk, "R-09.1", zs.qualname, where(zs, zt[0] if zt else zs.node), "`$TTL n` is emitted under `default_ttl is not None`, the same condition under which records omit their TTL column",
               "the $TTL directive and the omission of the TTL column are decided by different conditions (e.g. truthiness vs `is not None`): with default_ttl=0 records lose their TTL on re-read", stmt="ttl-directive-condition")
-    nd = model.func("dns.node.Node.to_styled_text")
+    nd = pat.canon_func(model.func("dns.node.Node.to_styled_text"), ["for __rds in self.rdatasets:"])
     t = " ".join(src(nd.node).split())
     rep.check("for rds in self.rdatasets:" in t and "rds.to_styled_text" in t, "R-09.1", nd.qualname, where(nd, nd.node), "every rdataset of the node is written", "node writer skips rdatasets", stmt="all-rdatasets")
     t = " ".join(src(rs.node).split())
@@ -73,8 +77,9 @@ def run(model, rep, tier):
 
     # ---------------------------------------------------------------- R-09.2
     n_add = 0
+    OWNER = ["self.txn.add(__name, ...)"]
     for q in ("dns.zonefile.Reader._rr_line", "dns.zonefile.Reader._generate_line"):
-        f = model.func(q)
+        f = pat.canon_func(model.func(q), OWNER)
         cfg = CFG(f.node, implicit_exc=False)
         adds = [(n, c) for (n, c) in calls_with_nodes(cfg) if src(c.func) == "self.txn.add"]
         guards = []
@@ -101,7 +106,7 @@ def run(model, rep, tier):
             rep.check(not before, "R-09.2", q, where(f, g.ast), "no transaction call precedes the in-zone test", "the transaction is touched before the in-zone test", stmt="no-effect-before-gate")
     rep.floor("R-09.2", n_add, 2)
     # an explicit owner is remembered BEFORE the in-zone test, so continuation lines of an out-of-zone owner are dropped too
-    f = model.func("dns.zonefile.Reader._rr_line")
+    f = pat.canon_func(model.func("dns.zonefile.Reader._rr_line"), OWNER)
     cfg = CFG(f.node, implicit_exc=False)
     stores = [n for n in cfg.nodes if isinstance(n.ast, ast.Assign) and any(src(t) == "self.last_name" for t in n.ast.targets)]
     gates = [t_ for t_ in cfg.nodes if t_.kind == "test" and isinstance(t_.ast, ast.If) and atoms(normalise_compare(t_.ast.test)) == [("name.is_subdomain(self.zone_origin)", "falsy", "")]]
@@ -109,7 +114,7 @@ def run(model, rep, tier):
     rep.check(okk, "R-09.2", f.qualname, where(f, stores[0].ast if stores else f.node), "the owner of the line is recorded in last_name before the in-zone test",
               "last_name is updated only after the in-zone test: whitespace-led lines after an out-of-zone owner inherit the previous in-zone owner and foreign data is loaded", stmt="last-name-before-gate")
     # the force_name exemption really is caller-supplied
-    rr = model.func("dns.zonefile.Reader._rr_line")
+    rr = pat.canon_func(model.func("dns.zonefile.Reader._rr_line"), OWNER)
     t = " ".join(src(rr.node).split())
     rep.check("if self.force_name is not None: name = self.force_name" in t, "R-09.2", rr.qualname, where(rr, rr.node), "the only owner that bypasses the gate is the caller's force_name", "force_name handling changed", stmt="force-name")
 
@@ -121,7 +126,7 @@ def run(model, rep, tier):
               "the zone reader no longer registers the CNAME/other-data check on every construction path", stmt="registers-check")
     cp = model.func("dns.transaction.Transaction.check_put_rdataset")
     rep.check("self._check_put_rdataset.append(check)" in src(cp.node), "R-09.3", cp.qualname, where(cp, cp.node), "registration appends to the list the put path iterates", "check registration changed", stmt="registration")
-    ck = model.func("dns.transaction.Transaction._checked_put_rdataset")
+    ck = pat.canon_func(model.func("dns.transaction.Transaction._checked_put_rdataset"), ["for __check in self._check_put_rdataset:"])
     cfg = CFG(ck.node, implicit_exc=False)
     put = [n for (n, c) in calls_with_nodes(cfg) if src(c.func) == "self._put_rdataset"]
     loops = [n for n in cfg.nodes if n.kind == "for" and src(n.ast.iter) == "self._check_put_rdataset"]
@@ -133,7 +138,7 @@ def run(model, rep, tier):
             for c in ast.walk(f.node):
                 if isinstance(c, ast.Call) and isinstance(c.func, ast.Attribute) and c.func.attr == "_put_rdataset" and src(c.func.value) == "self":
                     rep.check(name == "_checked_put_rdataset", "R-09.3", f.qualname, where(f, c), "_put_rdataset reached through the checked wrapper", "_put_rdataset called directly: the CNAME check is bypassed", stmt="who-calls-put")
-    cc = model.func("dns.zonefile._check_cname_and_other_data")
+    cc = pat.canon_func(model.func("dns.zonefile._check_cname_and_other_data"), ["__node = txn.get_node(name)", "__node_kind = __node.classify()", "__rdataset_kind = dns.node.NodeKind.classify_rdataset(rdataset)"])
     t = " ".join(src(cc.node).split())
     okk = "if node_kind == dns.node.NodeKind.CNAME and rdataset_kind == dns.node.NodeKind.REGULAR: raise CNAMEAndOtherData" in t and \
           "elif node_kind == dns.node.NodeKind.REGULAR and rdataset_kind == dns.node.NodeKind.CNAME: raise CNAMEAndOtherData" in t and "node = txn.get_node(name)" in t
